@@ -1,20 +1,20 @@
 ------------------------------ MODULE MC_AstTree ------------------------------
 (* Model check over the SCHEMA of package ast (schema.ndjson, produced by reflection on the real Go
    types at check time): every tree of at most MaxNodes nodes is built in pre-order (root: one kind per
-   distinct field shape of the schema; children: one kind per shape with at most two fields), then a
+   distinct field shape of the schema; children: one kind per shape with at most ChildFields fields), then a
    stack-machine Walk (one action per Visit call, as astutil.Walk recurses) traverses it.
    Invariants at the end: the walk's callbacks are the reference pre-order and satisfy EachOnce; the
    model Clone is accepted by Iso/Disjoint; a shallow clone and a walk that drops a child are rejected
    (so the judge's predicates are not vacuous). *)
 EXTENDS AstTree, TLC, Json
-CONSTANTS MaxNodes, MaxList
+CONSTANTS MaxNodes, MaxList, ChildFields
 
 Schema == ndJsonDeserialize("schema.ndjson")
 KindSet == {Schema[i] : i \in 1..Len(Schema)}
 Shape(e) == <<[i \in 1..Len(e.f) |-> e.f[i].m], e.node>>
 Shapes == {Shape(e) : e \in KindSet}
 RootKinds == {CHOOSE e \in KindSet : Shape(e) = sh : sh \in Shapes}
-ChildKinds == {e \in RootKinds : Len(e.f) <= 2}
+ChildKinds == {e \in RootKinds : Len(e.f) <= ChildFields}
 NewNode(e) == [k |-> e.k, p |-> ~e.node, v |-> <<>>,
                f |-> [i \in 1..Len(e.f) |-> [n |-> e.f[i].n, m |-> e.f[i].m, c |-> <<>>]]]
 
